@@ -47,10 +47,24 @@ func drawC16(t *rapid.T) *C16Case {
 	if rapid.IntRange(0, 3).Draw(t, "short") == 0 {
 		n = rapid.IntRange(0, 6).Draw(t, "nShort")
 	}
+	c.Path = drawZigZag(t, R, c.Eps, n)
+	// translation keeps everything (also the scaled copy) within 2^29
+	room := maxC - R - 1
+	c.DX = rapid.Int64Range(-room, room).Draw(t, "tdx")
+	c.DY = rapid.Int64Range(-room, room).Draw(t, "tdy")
+	if c.Variant == "D" || c.Variant == "pathsD" {
+		c.DShift = rapid.IntRange(0, 10).Draw(t, "dShift")
+	}
+	return c
+}
+
+// drawZigZag draws a path of n points within [-R,R]^2: a zig-zag around a base polyline with
+// amplitudes around eps, exactly collinear runs, duplicates and almost collinear Fibonacci steps.
+func drawZigZag(t *rapid.T, R int64, eps float64, n int) Path {
 	// a zig-zag around a base polyline with amplitudes around eps, plus collinear runs
 	var p Path
 	cur := P{X: rapid.Int64Range(-R, R).Draw(t, "x0"), Y: rapid.Int64Range(-R, R).Draw(t, "y0")}
-	amp := int64(math.Ceil(c.Eps)) + 1
+	amp := int64(math.Ceil(eps)) + 1
 	for len(p) < n {
 		switch rapid.IntRange(0, 5).Draw(t, "step") {
 		case 0: // generic jump
@@ -91,15 +105,7 @@ func drawC16(t *rapid.T) *C16Case {
 			p = append(p, cur)
 		}
 	}
-	c.Path = p
-	// translation keeps everything (also the scaled copy) within 2^29
-	room := maxC - R - 1
-	c.DX = rapid.Int64Range(-room, room).Draw(t, "tdx")
-	c.DY = rapid.Int64Range(-room, room).Draw(t, "tdy")
-	if c.Variant == "D" || c.Variant == "pathsD" {
-		c.DShift = rapid.IntRange(0, 10).Draw(t, "dShift")
-	}
-	return c
+	return p
 }
 
 func clampR(v, R int64) int64 {
